@@ -10,7 +10,9 @@ def _sizes(tier, k):
 
 def main(tier, t0):
     tasks = stage_check.tasks_for("C14", tier, scenario="inverse3", sizes=_sizes,
-                                  structure_filter=lambda st: st["inverse_ok"] and "ref-tie" not in st["tags"] and st["name"] != "sm-chain")
+                                  structure_filter=lambda st: st["inverse_ok"] and "ref-tie" not in st["tags"] and st["name"] not in ("sm-chain", "sm-incoming-from-emptied"))
+    # (the two excluded shape-map structures: in reverse(G) the referencing shape's target is emptied and removed, and the reference is then dropped - the recorded
+    #  finding STAGE-ref-to-removed-shape-drops-constraint of C02/C12 - so reverse(G) is not a usable oracle for them)
     # the same three runs with the classes requested through target_classes (the profile is then initialised per requested class before reading)
     for name, targets in (("own-links", ["C", "D"]), ("multi-typed-incoming", ["C", "E"]), ("literal-looks-like-instance", ["C", "D"])):
         tasks += [(m, f, "targets/" + ob, dict(kw, cfg=dict(kw["cfg"] or {}, targets=targets))) for (m, f, ob, kw) in
